@@ -199,8 +199,12 @@ func TestZZVerifBounded(t *testing.T) {
 			case "C03":
 				// (the constructor rewrites a trailing "/*" to "^" - "example.org/*" is meant to cover
 				// "example.org" itself, too; the reference is applied to the pattern that gets compiled)
-				if ref := zzRef(f.pattern, u); ref != real {
-					report("language", pattern, u, fmt.Sprintf("compiled=%q code=%v documented=%v", f.pattern, real, ref))
+				ref := zzRef(f.pattern, u)
+				if ref != real {
+					report("language", text, u, fmt.Sprintf("compiled=%q code=%v documented=%v", f.pattern, real, ref))
+				} else if full := f.Match(req); full != ref {
+					// the rule as a whole (no other modifier present) must accept the same language as its pattern
+					report("rule-language", text, u, fmt.Sprintf("compiled=%q Match=%v documented=%v", f.pattern, full, ref))
 				}
 			case "C05":
 				if real && !strings.Contains(strings.ToLower(u), f.Shortcut) {
